@@ -209,6 +209,20 @@ class BasePlugin(object):
             import shutil
             shutil.rmtree(wd, ignore_errors=True)
 
+    @staticmethod
+    def _add_extra(result, xv, known_entries):
+        """Findings of the implementation probes: one that carries the id of a listed known
+        finding (a probe entry of KNOWN_FINDINGS.json: that id is only attached to the exact
+        failure shape the entry describes) is reported as KNOWN-FINDING, once; every other one is
+        a violation."""
+        probe_known = {k['id']: k for k in known_entries if k.get('status') == 'known' and k.get('probe')}
+        for v in xv:
+            k = probe_known.get(v.get('finding_id'))
+            if k is None:
+                result['violations'].append(v)
+            elif k not in result['known_findings']:
+                result['known_findings'].append(k)
+
     def run(self, rng, tier, seed, model_ok=True):
         n = self.quick_n if tier == 'quick' else self.thorough_n
         known_entries, known_mask = self.known()
@@ -224,7 +238,7 @@ class BasePlugin(object):
                                   'rule': self.rule, 'samples': [self.describe(cases[0], outs[0])]}
             # the implementation-only part of the search for a failing input still runs
             xv, xcov = self.extra_checks(rng, tier, seed)
-            result['violations'] += xv
+            self._add_extra(result, xv, known_entries)
             result['coverage'].update(xcov)
             return result
         ev = self.evaluate(cases)
@@ -306,7 +320,7 @@ class BasePlugin(object):
             except Exception as e:  # a witness that no longer runs is not a finding any more
                 print('note: known-finding witness %s did not run: %r' % (k.get('id'), e))
         xv, xcov = self.extra_checks(rng, tier, seed)
-        result['violations'] += xv
+        self._add_extra(result, xv, known_entries)
         if not samples and ev:
             samples.append(self.describe(ev[0][0], ev[0][1]))
         cov = {
